@@ -116,8 +116,9 @@ def run_property(prop, tier, seed, facts_dir=None, do_extract=True, quiet=False,
     t0 = time.time()
     mod = importlib.import_module("uecheck.rules_" + prop.lower())
     if facts_dir is None:
-        facts_dir = os.path.join(VERIF, ".work", "facts-" + prop)
-    viol_dir = os.path.join(VERIF, "evidence", "violations")
+        facts_dir = os.path.join(os.environ.get("UEC_WORK", os.path.join(VERIF, ".work")), "facts-" + prop)
+    ev_dir = os.environ.get("UEC_EVIDENCE_DIR", os.path.join(VERIF, "evidence"))
+    viol_dir = os.path.join(ev_dir, "violations")
     nonce = None
     fatal = None
     ctx = None
@@ -207,8 +208,8 @@ def run_property(prop, tier, seed, facts_dir=None, do_extract=True, quiet=False,
         "wall_s": round(time.time() - t0, 3),
         "violations": len(viols),
     }
-    os.makedirs(os.path.join(VERIF, "evidence"), exist_ok=True)
-    with open(os.path.join(VERIF, "evidence", prop + ".json"), "w") as f:
+    os.makedirs(ev_dir, exist_ok=True)
+    with open(os.path.join(ev_dir, prop + ".json"), "w") as f:
         json.dump(ev, f, indent=1, sort_keys=False)
         f.write("\n")
 
